@@ -194,6 +194,8 @@ UNITS["C03"] = [
 ]
 
 UNITS["C10"] = [
+    dict(kind="structural", name="c10_seq_guard", check="seq_range_guard", file="crates/klukai-agent/src/agent/handlers.rs", fn="handle_changes",
+         trusted=["rangemap 1.6 RangeInclusiveMap::insert/remove assert start <= end (validated by depcheck: insert panics on an inverted range)"]),
     dict(kind="structural", name="c10_offer_loops", check="offer_loops", file="crates/klukai-agent/src/agent/util.rs", fn="process_multiple_changes",
          trusted=["syntactic reading of the loop nest (vx/structural.py offer_loops); `?`/`return Err` exits roll the transaction back and surface an error"]),
     dict(kind="verus", name="c10_contains", template="specs/c02_booked.vrs",
